@@ -5,7 +5,10 @@ every body order Go's map iteration and the topological walk can yield; run-time
 spec/ResolverGen.tla (program universes), MC_Resolver (Exact / Sound / PassBound / order independence),
 Gen_Resolver (programs exported with verdict, types, indexes and predicted output; family "frames": one function of
 3-4 parameters called -- from the main body twice, and recursively -- with fewer arguments than parameters, the
-omitted ones being every mix of scalars and local arrays),
+omitted ones being every mix of scalars and local arrays; family "forms": the FORM of an argument of a call or of
+length() -- bare variable x, parenthesised (x), expression x "", element x[length(x)], constant -- meeting a parameter
+that is a scalar, an array, unused or only passed on: only the bare variable shares the parameter's type, every
+other form is a scalar value, a use of the variable it names, and makes the parameter a scalar),
 Trace_Resolver (resolutions of richer random programs recorded from the real parser, validated by TLC).
 """
 import copy, os
@@ -25,6 +28,45 @@ def corrupt(case, rnd):
     return c
 
 
+def corrupt_forms(case, rnd):
+    """Corrupt what the specification predicts about argument forms: the verdict of a program (an expression passed to
+    an array parameter / naming a variable of the other type is to be rejected, anything else accepted), or the value
+    printed for length(expression) or printed after an expression was evaluated (the element it created)."""
+    c = copy.deepcopy(case)
+    if c['verdict'] == 'accept' and c['out'] and rnd.random() < 0.6:
+        def body(f):
+            return c['prog']['main'] if f == 0 else c['prog']['funcs'][f - 1]['body']
+        own = [k for k, o in enumerate(c['out'])
+               if o['k'] == 'len' and body(o['f'])[o['i'] - 1]['v'].get('fm', 'v') != 'v']
+        k = rnd.choice(own) if own and rnd.random() < 0.7 else len(c['out']) - 1
+        c['out'][k]['n'] += 1
+        return c
+    return corrupt(case, rnd)
+
+
+def has_forms(line):
+    """an exported case (one ndjson line) with an argument of a call or of length() that is an expression form"""
+    return '"fm":"p"' in line or '"fm":"e"' in line or '"fm":"x"' in line
+
+
+def form_class(prog):
+    """The argument class of a program with expression arguments (the same names as harness/c16 formClass): the first
+    of paren, expr, elem -- as argument of a call before as operand of length() -- that occurs; '' when none does."""
+    seen = set()
+    for body in [prog.get('main', [])] + [f.get('body', []) for f in prog.get('funcs', [])]:
+        for st in body:
+            if st.get('k') == 'len' and st.get('v', {}).get('sc') != 'C':
+                seen.add('length-' + st['v'].get('fm', 'v'))
+            for a in st.get('args', []) or []:
+                if a.get('sc') != 'C':
+                    seen.add('arg-' + a.get('fm', 'v'))
+    for fm, name in (('p', 'paren'), ('e', 'expr'), ('x', 'elem')):
+        for place in ('arg-', 'length-'):
+            if place + fm in seen:
+                return place + name
+    return ''
+
+
 def corrupt_event(ev, rnd):
     e = copy.deepcopy(ev)
     if e.get('verdict') == 'accept' and e.get('out'):
@@ -36,7 +78,7 @@ def corrupt_event(ev, rnd):
 
 
 USAGE = dict(NP1=1, NP2=1, NP3=9, NG=2, MaxMainCalls=1, AllowRev='FALSE', MinArgs=1, NFm=3, NPf=3, FrLen='FALSE',
-             Family='"usage"')
+             Forms='{}', FxWide='FALSE', Family='"usage"')
 
 
 def consts(**kw):
@@ -51,13 +93,17 @@ def run(ctx):
     ctx.rule = ('a case is one abstract program (functions with parameters, a main body over globals; statements: scalar '
                 'use, array use, length(v), call with variable/constant arguments, possibly fewer than parameters, incl. '
                 'recursion; family "frames": a function of 3-4 parameters called twice from the main body and recursively with '
-                'fewer arguments than parameters, every mix of omitted scalars and omitted local arrays) '
+                'fewer arguments than parameters, every mix of omitted scalars and omitted local arrays; family "forms": two '
+                'one-parameter functions and one global, every argument of a call and of length() in each of the forms bare '
+                'variable / (x) / x "" / x[length(x)] / constant against a parameter that is scalar, array, unused or passed '
+                'on in any form) '
                 'exported by TLC from Gen_Resolver with the declarative verdict, types and predicted output, and '
                 'rendered in every definition order (functions permuted, BEGIN first/last) and under three naming schemes '
                 '(plain, name order reversed, parameters shadowing globals), each parsed 4-16 times; or one resolution of a '
                 'random richer program recorded from the real parser; distinct by content; non-trivial when a variable is '
-                'passed as an argument or a constant is passed (the propagation mechanism is exercised) or a call leaves '
-                'parameters without argument (the callee frame is exercised)')
+                'passed as an argument or a constant or an expression is passed or length() is taken of an expression (the '
+                'propagation mechanism is exercised) or a call leaves parameters without argument (the callee frame is '
+                'exercised)')
     ctx.assumptions += [
         'programs inside the statement\'s precondition only (calls name defined functions, no more arguments than '
         'parameters, no name used both as function and variable)',
@@ -65,6 +111,15 @@ def run(ctx):
         'v[length(v)] = 1, optionally preceded by an `in` test, a delete or a for-in over v (the form is a function of the '
         'statement\'s place); length(v) carries no evidence; split(), getline targets and native-function arguments are '
         'not generated',
+        'argument forms: only a bare variable name is `a variable passed as an argument` that shares the type of the '
+        'parameter, and only length(x) of a bare variable carries no evidence; (x), ((x)), x "", "" x are scalar uses of '
+        'x and x[length(x)] is an array use of x; a parameter that receives any of them (or a constant) is a scalar. '
+        'Other expression shapes (arithmetic, function results, assignments, ++/--, getline, (x) as assignment target) '
+        'are not generated',
+        'run-time model of the forms: (x) and x "" pass a copy of the value of x; x[length(x)] names an element x does '
+        'not have (its elements are numbered 0..n-1): the reference creates it (POSIX: any reference to a nonexistent '
+        'element creates it), so x has one element more, for every sharer of x, and the value passed is the empty '
+        'string; the constant operand of length() has one character',
         'calls made inside functions are guarded by a depth limit of 2 in the generated text and in the run-time model',
         'run-time model of accepted programs: values are counters (a scalar is a string of that many characters, an array '
         'has that many elements); the constant passed as argument number j is a string of j characters; a parameter '
@@ -75,6 +130,10 @@ def run(ctx):
     ctx.build()
     big = consts(NP1=2, NP2=2, NP3=1, NG=2, MaxMainCalls=2, AllowRev='TRUE', MinArgs=0)
     frames = consts(Family='"frames"', NPf=3, FrLen='FALSE' if q else 'TRUE')
+    # argument forms: quick = f1 -> f2, main -> f1 (13.6k programs); thorough = also recursion in f1, main -> f2 and
+    # every body reversed (91k programs)
+    forms = consts(Family='"forms"') if q else consts(Family='"forms"', FxWide='TRUE', AllowRev='TRUE')
+    ALLFORMS = '{"p", "e", "x"}'
     if os.environ.get('VERIF_SKIP_MODEL'):      # development aid for runs against changed code: the model does not depend on the code
         ctx.notes.append('model run skipped (VERIF_SKIP_MODEL)')
     else:
@@ -90,6 +149,12 @@ def run(ctx):
         # the inference on the programs of the "frames" family (three/four parameters, recursion with fewer arguments)
         mcf = ctx.cfg('MC_Resolver', name='MC_Resolver_frames', constants=dict(frames, MapOrder='"any"'))
         ctx.tlc('MC_Resolver', mcf, simulate=(150 if q else 3000), depth=400, workers=min(4, ctx.cores), timeout=1500)
+        # the inference on every program of the "forms" family, and on sampled programs of the big universe whose
+        # arguments take every form
+        mcx = ctx.cfg('MC_Resolver', name='MC_Resolver_forms', constants=dict(forms, MapOrder='"any"'))
+        ctx.tlc('MC_Resolver', mcx, timeout=3000, heap='8g')
+        mcsx = ctx.cfg('MC_Resolver', name='MC_Resolver_simforms', constants=dict(big, MapOrder='"any"', Forms=ALLFORMS))
+        ctx.tlc('MC_Resolver', mcsx, simulate=(150 if q else 3000), depth=400, workers=min(4, ctx.cores), timeout=1500)
     # 2. spec -> code
     gen = ctx.cfg('Gen_Resolver', name='Gen_Resolver_ex', constants=consts())
     ctx.tlc('Gen_Resolver', gen, capture='cases.ndjson', timeout=1500, heap='8g')
@@ -99,6 +164,12 @@ def run(ctx):
     # calls with fewer arguments than parameters, every mix of omitted scalars and omitted local arrays, recursion
     gfr = ctx.cfg('Gen_Resolver', name='Gen_Resolver_frames', constants=frames)
     ctx.tlc('Gen_Resolver', gfr, capture='cases.ndjson', timeout=3000, heap='8g')
+    # the forms of an argument of a call / of length() at every kind of place, and inside the big universe
+    gfx = ctx.cfg('Gen_Resolver', name='Gen_Resolver_forms', constants=forms)
+    ctx.tlc('Gen_Resolver', gfx, capture='cases.ndjson', timeout=3000, heap='8g')
+    gsx = ctx.cfg('Gen_Resolver', name='Gen_Resolver_simforms', constants=dict(big, Forms=ALLFORMS))
+    ctx.tlc('Gen_Resolver', gsx, capture='cases.ndjson', simulate=(250 if q else 8000), depth=40,
+            workers=min(4, ctx.cores), timeout=1500)
     if not q:
         mid = consts(NP1=2, NP2=1, NG=1, MinArgs=1)
         g2 = ctx.cfg('Gen_Resolver', name='Gen_Resolver_mid', constants=mid)
@@ -117,6 +188,19 @@ def run(ctx):
     ctx.cov['frames_cases_with_omitted_parameters'] = nfr
     if nfr < 100:
         raise MachineryError(f'only {nfr} accepted programs of the "frames" family were exported')
+    # ... and on the argument forms alone: programs in which an argument of a call or of length() is an expression
+    nfx = nrej = 0
+    with open(ctx.path('cases_forms.ndjson'), 'w') as f:
+        for line in open(ctx.path('cases.ndjson')):
+            if has_forms(line):
+                f.write(line)
+                nfx += 1
+                nrej += '"verdict":"reject"' in line
+    ctx.selftest(ctx.path('cases_forms.ndjson'), 'C16', corrupt_forms, 'gen-resolver-forms')
+    ctx.cov['cases_with_expression_arguments'] = nfx
+    ctx.cov['cases_with_expression_arguments_rejected'] = nrej
+    if nfx < 1000 or nrej < 100 or nfx - nrej < 100:
+        raise MachineryError(f'only {nfx} programs with expression arguments were exported ({nrej} of them to be rejected)')
     # 3. code -> spec
     ntr = 150 if q else 1500
     ctx.harness(['C16', 'record', '-seed', str(ctx.seed), '-n', str(ntr), '-out', ctx.path('trace.ndjson')])
@@ -129,6 +213,8 @@ def run(ctx):
                ('types' if ev.get('types') != exp.get('types') else ('run' if ev.get('run') != exp.get('run') else 'output'))
         case = dict(fam='recorded', prog=ev['prog'], verdict=exp.get('verdict'), types=exp.get('types') or [],
                     out=exp.get('out') or [], norders=2, errs=[])
-        ctx.add_failure(f'C16/trace/{what}/recorded', f'recorded resolution rejected by Trace_Resolver at event {r["line"]}',
+        fc = form_class(ev['prog'])
+        ctx.add_failure(f'C16/trace/{what}/recorded' + ('-' + fc if fc else ''),
+                        f'recorded resolution rejected by Trace_Resolver at event {r["line"]}',
                         case=case, expected=exp, observed={k: ev.get(k) for k in ('verdict', 'types', 'run', 'out', 'msg')},
                         program=ev.get('src'))
